@@ -215,16 +215,23 @@ func TestC09(t *testing.T) {
 	// ends must end up with the window of the SYN that the handshake completed on
 	for _, n := range []int{1, 2, 3, 19, 21, 100} {
 		for _, stale := range []string{"0107", "0114", "01fe"} {
-			sc := &HsScenario{N: uint8(n), Stale: [2][]string{{stale}, nil}}
-			res := RunHs(t, sc)
-			r.Case(fmt.Sprintf("stale-syn:%d:%s", n, stale), true, "handshake-stale-syn")
-			if res.Panic != "" {
-				r.Violate("C09/run-failed", res.Panic, sc)
-				continue
-			}
-			if res.SrvConn && res.CliConn && (res.SrvN != n || res.CliN != n) {
-				r.Violate("C09/sequence-space", fmt.Sprintf("a stale SYN %s preceded the client's SYN(%d): both ends entered the data phase, client with window %d, server with window %d",
-					stale, n, res.CliN, res.SrvN), sc)
+			for _, dropEcho := range []bool{false, true} {
+				sc := &HsScenario{N: uint8(n), Stale: [2][]string{{stale}, nil}, Retry: true}
+				if dropEcho {
+					// the server's answer to the stale SYN is lost, so the new client never sees it
+					sc.Faults[1] = []Fault{{Drop: true}}
+				}
+				res := RunHs(t, sc)
+				r.Case(fmt.Sprintf("stale-syn:%d:%s:%v", n, stale, dropEcho), true, "handshake-stale-syn")
+				if res.Panic != "" {
+					r.Violate("C09/run-failed", res.Panic, sc)
+					continue
+				}
+				// the attempt on which data got through in both directions: same window on both ends, the client's
+				if res.Delivered[0] && res.Delivered[1] && (res.LastN[0] != n || res.LastN[1] != n) {
+					r.Violate("C09/sequence-space", fmt.Sprintf("a stale SYN %s preceded the client's SYN(%d): data was exchanged on a connection where the client uses window %d and the server window %d",
+						stale, n, res.LastN[0], res.LastN[1]), sc)
+				}
 			}
 		}
 	}
